@@ -88,7 +88,8 @@ func (w *vzWorld) onVotesStored(nd *vzNode, kind string, h uint64, r uint32, c t
 	w.orc.checkSparseAuthentic(nd, "round-store", kind, h, r, c.PubKeyHash, c.BlockSignatures)
 }
 
-func (o *vzOracles) onActionSaved(nd *vzNode, kind string, h uint64, r uint32, sig string, err error) {}
+func (o *vzOracles) onActionSaved(nd *vzNode, kind string, h uint64, r uint32, sig string, err error) {
+}
 
 // ---- C04: committed chain immutable, gap-free, hash-linked; position monotone
 
